@@ -17,7 +17,7 @@ func (vc *VC) heapGet(st *State, name, sort string, elemT types.Type) Term {
 	if t, ok := st.heap[name]; ok {
 		return t
 	}
-	if st.havocTok != "" {
+	if st.havocTok != "" && !vc.immutableHeap(name) && !vc.havocKnown[st.havocTok][name] {
 		// the state went through a call without a frame: heaps that were not materialised then are unknown too
 		key := st.havocTok + "|" + name
 		if t, ok := vc.lazyHeaps[key]; ok {
@@ -86,6 +86,8 @@ func (vc *VC) heapWF(name, sym, alloc string) string {
 		ks := vc.heapSort[name]
 		k := mapKeySortFromHeapSort(ks)
 		return "(forall ((k!h " + k + ")) (not (select (select " + sym + " 0) k!h)))"
+	case name == "Chh":
+		return "(forall ((r!h Int)) (! (>= (select " + sym + " r!h) 0) :pattern ((select " + sym + " r!h))))"
 	case strings.HasPrefix(name, "Chb$"):
 		if et == nil {
 			return "true"
